@@ -262,6 +262,13 @@ def jobs_for(prop, tier, seed):
             js.append(("mk_pass", dict(prop=prop, prog=p, config=f"level:{lvl}", symconst=False)))
         js.append(("mk_pass", dict(prop=prop, prog=p, config="seq:Mem2RegPromotor+ConstantFolder+CJumpPass+CleanPass",
                                    symconst=(tier != "quick" and p not in NO_SYMCONST))))
+    # seeded pass sequences drawn from the pipeline's bag of passes (C03: "every pass sequence")
+    import random
+    rnd = random.Random(seed * 7919 + 17)
+    for n, p in enumerate(progs):
+        for _ in range(2 if tier != "quick" else (1 if n % 4 == seed % 4 else 0)):
+            seq = [rnd.choice(SINGLE) for _ in range(rnd.choice((3, 4)))]
+            js.append(("mk_pass", dict(prop=prop, prog=p, config="seq:" + "+".join(seq), symconst=False)))
     # IR-level CFG skeleton family (phis, joins, self loops, double edges): CFG-rewriting passes + pipeline
     for nm in irprogs.names(tier, seed):
         for cfg in ("pass:CleanPass", "level:2", "seq:Mem2RegPromotor+ConstantFolder+CJumpPass+CleanPass") if tier == "quick" \
